@@ -274,8 +274,8 @@ def run(chk, prog):
                 if ev["calcKick"](n):
                     d_ = 0
                 if ev["pop(next)"](n):
-                    d_ = None if d_ is None else max(d_ - 1, -4)
-                    u_ = None if u_ is None else max(u_ - 1, -4)
+                    d_ = d_ if not isinstance(d_, int) else max(d_ - 1, -4)
+                    u_ = u_ if not isinstance(u_, int) else max(u_ - 1, -4)
                 if ev["KickMap::apply"](n):
                     u_ = 0 if d_ == 0 else "bad"
                 out.add((d_, u_))
